@@ -11,8 +11,9 @@ Requests (one line each, one response line each):
 * `closed <initial> <max> <mult> <count> <k>` — the closed form `Penguin.Spec.closedDelay` of the
   `k`-th consecutive delay (from 0): a number or `none`.
 * `retryable <error>` — classification of a client error (see `Penguin.Client.parseErr`).
-* `scenario <count> <maxInterval> <hsTimeout|-> <chTimeout|-> <step>...` — run the whole-client
-  model on a script of server behaviours (see `Penguin.Client.parseStep`).  Response:
+* `scenario [ws|wss-ca|wss-insecure] <count> <maxInterval> <hsTimeout|-> <chTimeout|-> <step>...` —
+  run the whole-client model on a script of server behaviours (see `Penguin.Client.parseStep`);
+  without a transport token: `ws`.  Response:
   `sleeps=<a,b,..|-> attempts=<n> final=<..> served=<req@attempt,..|-> parked=<req|-> queued=<..|-> lost=<..|->`.
 -/
 import Penguin.Basic.Bytes
@@ -54,11 +55,23 @@ def step (_ : Unit) (line : String) : Unit × String :=
       match Client.parseErr e with
       | some e => toString e.retryable
       | none => "bad-op"
-    | "scenario" :: n :: m :: hs :: ch :: steps =>
-      match n.toNat?, m.toNat?, Client.parseOptMs hs, Client.parseOptMs ch, steps.mapM Client.parseStep with
-      | some n, some m, some hs, some ch, some steps =>
-        Client.showScenario (Client.runScenario (Client.Config.mk n m hs ch) steps)
-      | _, _, _, _, _ => "bad-op"
+    | "scenario" :: rest =>
+      -- the transport is optional (older corpus lines have none): `ws` then
+      let (tr, rest) :=
+        match rest with
+        | t :: more => match Client.parseTransport t with
+          | some tr => (tr, more)
+          | none => (Client.Transport.ws, rest)
+        | [] => (Client.Transport.ws, rest)
+      match rest with
+      | n :: m :: hs :: ch :: steps =>
+        match n.toNat?, m.toNat?, Client.parseOptMs hs, Client.parseOptMs ch, steps.mapM Client.parseStep with
+        | some n, some m, some hs, some ch, some steps =>
+          -- a half-finished TLS handshake needs TLS
+          if tr = .ws ∧ steps.any (·.beh = .stallTls) then "bad-op" else
+          Client.showScenario (Client.runScenario (Client.Config.mk n m hs ch tr) steps)
+        | _, _, _, _, _ => "bad-op"
+      | _ => "bad-op"
     | _ => "bad-op"
   ((), out)
 
